@@ -168,6 +168,8 @@ K.ghost("adsum(i)", "real", "ite(i <= 0, 0.0, adsum(i-1) - real(2*(i-1)+1)*log(x
 AD_OK = "n >= 1 and forall(q, 0 <= q < n, not isnan(x[q]) and x[q] > 0 and x[q] < 1) and forall(q, 0 <= q < n - 1, x[q] <= x[q+1])"
 K.behavior("accepted", AD_OK, "result == 0", props=["C10"])
 K.behavior("statistic", AD_OK, "outputs[0] == -real(n) + adsum(n)/real(n)", props=["C10"])
+# C10: the p-value lies in [0, 1]
+K.ensures("implies(result == 0, isnan(outputs[1]) or (outputs[1] >= 0 and outputs[1] <= 1))", props=["C10"])
 K.loop(0, var="i", invariant=["0 <= i and i <= n", "forall(q, 0 <= q < i, not isnan(x[q]) and x[q] >= 0 and x[q] <= 1)",
                               "implies(%s, not isnan(z) and z == adsum(i) and not isnan(prev) and (i == 0 or prev == x[i-1]) and (i > 0 or prev < 0))" % AD_OK])
 F = cfile("src/hydrodiy/stat/c_andersondarling.c")
@@ -178,3 +180,4 @@ K.assigns("unifdata[0:nval]", "outputs[0:2]")      # C18: the sample is sorted i
 # C10: whatever the order of the data: values outside [0, 1] or NaN anywhere in the sample are rejected, a sample strictly inside (0, 1) is accepted
 K.behavior("rejected", "exists(q, 0 <= q < nval, isnan(old(unifdata[q])) or old(unifdata[q]) < 0 or old(unifdata[q]) > 1)", "result > 0", props=["C10"])
 K.behavior("accepted", "nval >= 1 and forall(q, 0 <= q < nval, not isnan(old(unifdata[q])) and old(unifdata[q]) > 0 and old(unifdata[q]) < 1)", "result == 0", props=["C10"])
+K.ensures("implies(result == 0, isnan(outputs[1]) or (outputs[1] >= 0 and outputs[1] <= 1))", props=["C10"])
